@@ -283,3 +283,37 @@ def gen_hw_cascade(rng):
     full = y + fmt + arch + b
     return {"yaml": full, "configs": [{r: 3 for r in ranks}], "family": "hw-cascade", "key": full, "hw": True, "plain_yaml": mk_yaml(decl, exprs, lo={o: list(ranks) for o in outs}),
             "arch": {}, "cap": 12}
+
+
+def gen_hw_merger_cascade(rng):
+    """Producer/consumer cascade in metrics mode (gamma-like): T[k,m,n] = A[k,m] * B[k,n]; Z[m,n] = T[k,m,n] * C[k,m,n], with K optionally
+    split (differently) in both Einsums and a hardware merger bound to T in the consumer whose init-ranks are often exactly the order
+    the producer built T in."""
+    from families import interleave, levels
+    decl = {"A": ["K", "M"], "B": ["K", "N"], "C": ["K", "M", "N"], "T": ["K", "M", "N"], "Z": ["M", "N"]}
+    exprs = ["T[k, m, n] = A[k, m] * B[k, n]", "Z[m, n] = T[k, m, n] * C[k, m, n]"]
+    part, lo = {}, {}
+    lv = {}
+    for out in ("T", "Z"):
+        c = rng.random()
+        if c < 0.6:
+            part[out] = {"K": ["uniform_shape(%d)" % rng.choice([2, 3, 4])]}
+            lv[out] = ["K1", "K0"]
+        else:
+            lv[out] = ["K"]
+        lo[out] = interleave(rng, [lv[out], ["M"], ["N"]])
+    st = {o: {"space": [], "time": lo[o]} for o in ("T", "Z")}
+    y = mk_yaml(decl, exprs, part=part, lo=lo, st=st)
+    final = list(lo["Z"])                                    # T holds every loop rank of Z
+    if lv["T"] == lv["Z"] and rng.random() < 0.6:
+        init = list(lo["T"])                                 # what the producer built
+    else:
+        init = rng.sample(final, len(final))
+    arch = ("architecture:\n  Accel:\n  - name: System\n    attributes:\n      clock_frequency: 3\n    local:\n    - name: Mrg\n      class: Merger\n      attributes:\n        inputs: 4\n"
+            "        comparator_radix: 4\n        outputs: 1\n        order: fifo\n        reduce: False\n    - name: FPMul\n      class: Compute\n      attributes:\n        type: mul\n")
+    b = "bindings:\n  T:\n  - config: Accel\n    prefix: tmp/T\n  - component: FPMul\n    bindings:\n    - op: mul\n  Z:\n  - config: Accel\n    prefix: tmp/Z\n"
+    if init != final:
+        b += "  - component: Mrg\n    bindings:\n    - tensor: T\n      init-ranks: [%s]\n      final-ranks: [%s]\n" % (", ".join(init), ", ".join(final))
+    full = y + arch + b
+    return {"yaml": full, "configs": [{"K": 5, "M": 2, "N": 2}], "family": "hw-merger-cascade", "key": full, "hw": True, "plain_yaml": mk_yaml(decl, exprs, part=part, lo=lo),
+            "arch": {}, "cap": 16}
